@@ -214,6 +214,12 @@ class Gen04(l1.Gen):
         super().__init__(rng, cfg or l1.default_cfg(end_marker=False), nconn)
         self.meta = {}       # lseid -> {"gnb": addr or None, "npairs": n}
 
+    def _teid(self):
+        # unique, and spread over the 32-bit range (high bit, all-ones region) so that a dropped mask or a sign error shows
+        t = super()._teid()
+        k = self.rng.randrange(4)
+        return t if k < 2 else (0x80000000 | t if k == 2 else 0xFFFF0000 | (t & 0xFFFF))
+
     def pair(self, n, ue, chv4, choose, filt, qers, prec=None):
         r = self.rng
         if prec is None:
@@ -909,10 +915,6 @@ def mon_c04(names, case, intents, out, views):
         # requests that name an unknown session or arrive without association write nothing
         if it.get("expect") in ("reject-unknown", "reject-noassoc") and (o["calls"] or o["stray_writes"]):
             res.append(("rejected-but-wrote", f"event {i}: request expected to be rejected ({it['expect']}) reached the datapath", i))
-        # a valid request inside the envelope is accepted (the plug-in is the only component that can refuse it here)
-        if it.get("expect") == "accept" and it.get("op") in ("est", "mod", "del") and cause != P.CAUSE_ACCEPTED:
-            res.append((f"valid-request-rejected/{desc}", f"event {i} ({desc}): answered with cause {cause}; calls: "
-                        f"{[(c['method'], c['cause']) for c in o['calls']]}", i))
     if len(obs) < len(case["events"]) and not res:
         res.append(("history-cut", "harness stopped early without a recorded reason", len(obs)))
     return res
